@@ -34,7 +34,11 @@ func Verif_C05_tokeniser_total() {
 // bytes long, every terminating run makes a few dozen ReadAt calls, and an
 // endless loop in the reader makes them without bound.
 func verifWalk(data []byte, maxObj int, scan bool) {
-	for mode := 0; mode < 3; mode++ {
+	verifWalkModes(data, maxObj, scan, []int{0, 1, 2})
+}
+
+func verifWalkModes(data []byte, maxObj int, scan bool, modes []int) {
+	for _, mode := range modes {
 		src := &verifBudgetReader{r: bytes.NewReader(data), left: 600}
 		r, err := NewReader(src, int64(len(data)), &ReaderOptions{ErrorHandling: ReaderErrorHandling(mode)})
 		if err != nil {
@@ -127,19 +131,55 @@ func Verif_C05_byte_mutations() {
 // filter) whose /Size, /W, /Index, /Prev and /Length and an object stream's
 // /N and /First are tampered with: one field at a time takes any int64.
 func Verif_C05_xref_tampering() {
+	// /Size, /W (2 of 3), /Index (2), /Prev of the cross-reference stream, and
+	// the /DecodeParms variants of the object stream
+	verifTamper(3 + verifrt.Choice("field", 10))
+}
+
+// Verif_C05_objstm_tampering: /N, /First and /Length of the object stream.
+func Verif_C05_objstm_tampering() {
+	verifTamper(verifrt.Choice("field", 3))
+}
+
+func verifTamper(field int) {
 	verifrt.TerminationBound(20000)
 	// fields 0..8: one integer takes any value; 9..12: the object stream names
 	// an indirect object as its /DecodeParms
-	field := verifrt.Choice("field", 13)
 	val := func(k int, def int64) int64 {
 		if k == field {
-			return verifrt.Int64("tampered")
+			if k == 0 {
+				// /N sizes an allocation of up to 10000 entries, which the
+				// engine would enumerate value by value: boundary values
+				ns := []int64{-1, 0, 1, 2, 3, 4, 255, 10000, 10001, 1 << 31, 1<<63 - 1, -1 << 63}
+				return ns[verifrt.Choice("tamperedN", len(ns))]
+			}
+			if k == 1 && verifrt.Tier() == 0 {
+				// /First becomes the length of a slice of the discard
+				// buffer, which the engine enumerates value by value: any
+				// value in [-64, 64] (the stream has 13 bytes) or a large
+				// boundary value in the quick tier, any int64 in the
+				// thorough tier
+				if verifrt.Choice("firstlarge", 2) == 1 {
+					ls := []int64{1000, 8191, 8192, 8193, 1 << 31, 1<<63 - 1, -1 << 63}
+					return ls[verifrt.Choice("tamperedFirst", len(ls))]
+				}
+				v := verifrt.Int64("tampered")
+				verifrt.Assume(v >= -64 && v <= 64)
+				return v
+			}
+			v := verifrt.Int64("tampered")
+			return v
 		}
 		return def
 	}
 	var f bytes.Buffer
 	// bytes in front of the header: offsets in the file count from "%PDF"
-	junk := []string{"", "junk\n", "\x00\x01 17 bytes of it\n"}[verifrt.Choice("junk", 2+verifrt.Tier())]
+	// (quick tier: only for the fields that are or lead to file offsets)
+	junkChoices := 1
+	if field >= 8 || verifrt.Tier() > 0 {
+		junkChoices = 2 + verifrt.Tier()
+	}
+	junk := []string{"", "junk\n", "\x00\x01 17 bytes of it\n"}[verifrt.Choice("junk", junkChoices)]
 	f.WriteString(junk)
 	f.WriteString("%PDF-1.7\n")
 	o1 := f.Len() - len(junk)
@@ -188,7 +228,11 @@ func Verif_C05_xref_tampering() {
 	f.WriteString("\nendstream\nendobj\n")
 	fmt.Fprintf(&f, "startxref\n%d\n%%%%EOF\n", o6)
 	verifrt.Cover("tampered")
-	verifWalk(f.Bytes(), 7, false)
+	modes := []int{0, 2}
+	if verifrt.Tier() > 0 || field >= 9 {
+		modes = []int{0, 1, 2}
+	}
+	verifWalkModes(f.Bytes(), 7, false, modes)
 }
 
 // verifCycleGetter serves k objects whose values are references with
